@@ -77,7 +77,7 @@ def configs(ctx):
                 cfgs.append(T.finalize(g, rng))
     # specials, every run
     for alg in T.ALGORITHMS:
-        kinds = ["real"] if alg in T.REAL_ONLY else list(T.KINDS)
+        kinds = [k for k in T.KINDS if T.applicable(alg, k)]
         k = rng.choice(kinds)
         base = {"alg": alg, "kind": k, "maximize": False, "variator": "default"}
         cfgs.append(T.finalize(dict(base, cons="strict", evaluator="copy"), rng))                  # '<', '>' and callable constraints
@@ -228,7 +228,7 @@ def run(ctx):
         "finding_candidates_count": len(candidates),
         "grid_points_total": len(T.all_configs()),
     })
-    ctx.rule = ("runs: the grid algorithm(15) x variable type(6 incl. mixed Binary+Integer; Real only for GDE3/OMOPSO/SMPSO/CMAES) x {unconstrained, "
+    ctx.rule = ("runs: the grid algorithm(15) x variable type(7 incl. mixed Binary+Integer and very narrow Real ranges; Real only for GDE3/OMOPSO/SMPSO/CMAES) x {unconstrained, "
                 "constrained} x {min, max/mixed} x {default, explicit operator} (quick: half of the grid rotated by the seed; thorough: all x4), "
                 "evaluator/seed/size/scripted-extreme-probability/inject/subclass drawn from ctx.rng, plus restart, injected-population, strict-"
                 "constraint and heavy-extreme-draw specials; non-trivial run = completed >= 3 step boundaries with >= 3 evaluate_all batches, "
